@@ -427,6 +427,10 @@ class Exe:
                 if which == "C" and self.a.segs[self.ia[i]].ret != 0:
                     continue
                 segs.append([o.set_line(c[1])])
+            elif c[0] == "oset":
+                # an accepted setter of ANOTHER option of the same pipe: not a setter of the option under test
+                sib = o.siblings[c[1]]
+                segs.append([sib.set_line(c[2])])
             elif c[0] == "hflush":
                 # several inputs without letting the loop run (a holder keeps them), then upipe_flush: flushing
                 # is not a setter of the option either
@@ -636,9 +640,12 @@ def random_exe(o, rng, quick):
             cmds.append(("get",))
             if rng.chance(1, 5):
                 cmds.append(("get",))
-        elif c < 92:
+        elif c < 90:
             k += 1
             cmds.append(("in", k))
+        elif c < 95 and getattr(o, "siblings", None):
+            j = rng.below(len(o.siblings))
+            cmds.append(("oset", j, rng.choice(o.siblings[j].acc)))
         else:
             k += 1
             cmds.append(("hflush", k))
@@ -788,6 +795,12 @@ def judge(ctx, binp, exes, bad):
         raise err[0] if isinstance(err[0], vlib.ToolError) else vlib.ToolError("judge: %r" % err[0])
     for key, desc, rp in sorted(found, key=lambda x: x[0]):
         ctx.violation(key, desc, rp)
+
+
+# two views of one setting (the position of a file source is the offset of its range): not independent options
+# (and the file source announces a smaller block size for the last chunk of a range: upipe_fsrc_worker calls its own
+# set_output_size(remaining length) - the output size follows the range by design)
+COUPLED = {("fsrc", frozenset(("position", "range"))), ("fsrc", frozenset(("output_size", "range")))}
 
 
 class ReadyExe:
@@ -956,6 +969,11 @@ def run(ctx):
     if only:
         opts = [o for o in opts if o.name in only.split(",")]
     calibrate(ctx, binp, opts)
+    # the other options of the same pipe in the same set-up (their accepted values were just measured)
+    for o in opts:
+        o.siblings = [x for x in opts if x is not o and x.pipe == o.pipe and x.setup == o.setup and x.target == o.target
+                      and x.end == o.end and x.acc and (o.pipe, frozenset((o.opt, x.opt))) not in COUPLED]
+    ctx.extra["options_with_sibling_options"] = sum(1 for o in opts if o.siblings)
     mark('calibrate')
     ctx.extra["options_covered"] = {o.name: {"default": o.default, "accepted": o.acc, "rejected": o.rej,
                                              "inputs_exercise_option": o.datapath} for o in opts}
@@ -983,6 +1001,11 @@ def run(ctx):
     for o in opts:
         for _ in range(max(8, int(nrand * o.weight))):
             exes.append(random_exe(o, rng, quick))
+        # directed: every accepted value of the option against every accepted value of every other option of the pipe
+        for j, sib in enumerate(getattr(o, "siblings", [])):
+            for v in o.acc[:4]:
+                for w in sib.acc[:4]:
+                    exes.append(Exe(o, [("set", v), ("oset", j, w), ("get",), ("in", 1), ("get",)], "directed sibling option"))
     mark('scripts')
     execute(ctx, binp, exes, jobs=8)
     mark('execute')
